@@ -97,6 +97,8 @@ type Sim struct {
 	// Default, if set, serves requests that match no route.
 	Default Handler
 	nreq    int
+	over    bool // the caller declared the call that used this network finished
+	late    int  // requests that began after that
 }
 
 // New creates an empty network.
@@ -160,6 +162,20 @@ func (s *Sim) OpenBodies() int {
 	s.mu.Lock()
 	defer s.mu.Unlock()
 	return s.bodies
+}
+
+// CallOver marks the end of the call that was handed this network.
+func (s *Sim) CallOver() {
+	s.mu.Lock()
+	s.over = true
+	s.mu.Unlock()
+}
+
+// Late returns the number of requests that began after CallOver.
+func (s *Sim) Late() int {
+	s.mu.Lock()
+	defer s.mu.Unlock()
+	return s.late
 }
 
 // Open returns the number of RoundTrips that entered and have not exited.
@@ -285,6 +301,9 @@ func (s *Sim) RoundTrip(hr *http.Request) (resp *http.Response, err error) {
 				}
 			}
 		}
+	}
+	if s.over {
+		s.late++
 	}
 	r := &Request{HTTP: hr, Route: route, Method: hr.Method, URL: hr.URL.String(), Body: body, Nth: s.counts[route]}
 	s.counts[route]++
